@@ -184,6 +184,9 @@ class IntervalEval:
             return iv
         lo, hi = iv
         for ce, val in self.constraints:
+            # `c < x` is `x > c`
+            if ce[0] == "bin" and ce[1] in ("Lt", "Le", "Gt", "Ge", "Eq", "Ne") and ce[2][0] == "const" and ce[3][0] != "const":
+                ce = ("bin", {"Lt": "Gt", "Gt": "Lt", "Le": "Ge", "Ge": "Le", "Eq": "Eq", "Ne": "Ne"}[ce[1]], ce[3], ce[2])
             if ce[0] == "bin" and ce[1] in ("Lt", "Le", "Gt", "Ge", "Eq", "Ne") and ce[3][0] == "const":
                 if same(strip_casts(ce[2]), strip_casts(e)) or same(ce[2], e) or same(deep_strip(ce[2]), deep_strip(e)):
                     c = ce[3][1]
